@@ -73,8 +73,25 @@ def _composites():
         return cuqi.distribution.Normal(mean=lambda s: s, std=lambda s: 1.5 + 0 * np.abs(s), name="w")
     def lazy_laplace():
         return cuqi.distribution.Laplace(location=lambda s: s, scale=lambda s: 0.5 + 0 * np.abs(s), name="w")
+    # Gaussians whose matrix parameter is handed in in an unusual memory layout / storage format: what the object keeps is
+    # derived from (or IS) the caller's array, and every conditioned copy shares it
+    B = np.array([[2.0, 0.5, 0.0], [0.25, 1.5, 0.5], [0.5, 0.0, 1.0]])
+    S = B @ B.T + np.eye(3)
+    def g_sqrtprec_f():
+        return cuqi.distribution.Gaussian(lambda s: np.array([0.1, 0.2, 0.3]) * s, sqrtprec=np.asfortranarray(B.T), name="w")
+    def g_cov_f():
+        return cuqi.distribution.Gaussian(lambda s: np.array([0.1, 0.2, 0.3]) * s, cov=np.asfortranarray(S), name="w")
+    def g_prec_sparse():
+        import scipy.sparse as sps
+        return cuqi.distribution.Gaussian(lambda s: np.array([0.1, 0.2, 0.3]) * s, prec=sps.csc_matrix(S), name="w")
+    def g_sqrtcov_view():
+        big = np.zeros((6, 6))
+        big[::2, ::2] = B
+        return cuqi.distribution.Gaussian(lambda s: np.array([0.1, 0.2, 0.3]) * s, sqrtcov=big[::2, ::2], name="w")
     return [("RegularizedGaussian", reg), ("ConstrainedGaussian", con), ("Lognormal", lgn), ("RegularizedGMRF", rgm),
-            ("LazyNormal", lazy_normal), ("LazyLaplace", lazy_laplace)]
+            ("LazyNormal", lazy_normal), ("LazyLaplace", lazy_laplace),
+            ("Gaussian.sqrtprec.fortran", g_sqrtprec_f), ("Gaussian.cov.fortran", g_cov_f), ("Gaussian.prec.csc", g_prec_sparse),
+            ("Gaussian.sqrtcov.view", g_sqrtcov_view)]
 
 
 def _cond_value(o, which):
@@ -315,7 +332,9 @@ def replay_case(ctx, case, par, r, sweeps, seed):
     comps = _composites()
     cnames = []
     for c in range(case.get("k", 0)):
-        nm, mk = comps[(seed + c + len(case["hist"])) % len(comps)]
+        import zlib
+        nm, mk = comps[(zlib.crc32(json.dumps([case["hist"], par, r], sort_keys=True).encode()) + seed + c) % len(comps)]
+        ctx.facets["composite/" + nm] = ctx.facets.get("composite/" + nm, 0) + 1
         with quiet():
             pool.add(mk(), "composite")
         cnames.append(nm)
@@ -573,6 +592,7 @@ def run(ctx):
     need = {"action/condition", "action/to_likelihood", "action/copy_enable_fd", "action/apply_model", "action/logd",
             "action/gradient", "action/sample", "action/run_sampler", "action/gibbs", "action/cond_factor", "action/mutate_copy", "action/bad_call",
             "action/mutate_original", "mutate/lik_fd_switch", "to_likelihood/method", "to_likelihood/call", "sampler/MH", "sampler/CWMH", "sampler/MALA", "sampler/ULA", "sampler/NUTS"}
+    need |= {"composite/" + nm for nm, _ in _composites()}
     if not need <= set(ctx.facets):
         raise MachineryError("vacuous replay: actions never exercised: %s" % sorted(need - set(ctx.facets)))
     ctx.sample({"behaviour": plan[0]})
